@@ -1,17 +1,100 @@
 from .common import *
 
+NATIVE = ['env_native.c', 'env_native_file.c']
+# integration sequences over the menu of h_c17.c (index: 0 -e 1 -d 2 -v 3 -i in.bin 4 -i nofile 5 -i <130 chars> 6 -o out.bin 7 -o /nodir/out 8 -k valid
+# 9..11 -k malformed 12 --cmode 2 13 --cmode 7 14 --hmode 1 15 --hmode 9 16 -n 17 -V 18 -h 19 unknown 20 --cmode -3 21 -i <symbolic path> 22 --cmode 256 23 --hmode 255)
+SEQS_QUICK = [[k] for k in range(24)] + [
+    [0, 3], [0, 21], [0, 5], [0, 3, 6, 8], [0, 3, 12, 14, 16], [0, 3, 13], [0, 3, 15], [0, 3, 22], [0, 3, 23], [0, 3, 20], [0, 4], [0, 3, 7], [0, 3, 9], [0, 3, 12, 12],
+    [1, 3], [1, 3, 8], [1, 3, 6], [1, 3, 8, 6], [1, 8, 6], [1, 5, 8, 6], [1, 3, 8, 6, 13], [1, 3, 8, 6, 12],
+    [2, 3], [2, 3, 8], [2, 8], [2, 3, 10], [2, 3, 8, 14],
+    [0, 1], [1, 2, 3, 8, 6], [17, 3], [18, 19], [3, 6, 8], [16], [3, 0], [8, 6, 3, 1], [0, 0],
+]
+
 def run(tier):
     r = Run('C17', tier)
+    T = 600 if tier == 'quick' else 1800
+    ureal = U_cli_real()
+    # ---- one step of the option loop from an arbitrary Inv state
     u = U_cli()
-    T = 900 if tier == 'quick' else 3600
-    for n in ((1, 2, 3) if tier == "quick" else (2, 3, 4, 5)):
-        r.add(Ob('option-vectors-up-to-%d' % n, 'h_c17.c', [u], defines=['NOPT=%d' % n, 'ENV_NO_EXIT'], unwind=220, timeout=T, mem_gb=24, envs=CLI_ENVS, replay='none', cbmc_extra=FS,
-                 note='every sequence of <= %d options from a 21-entry menu of (option, argument) pairs; operation result symbolic' % n))
-    r.bounds = ['option vectors of length 1..5 over a menu of 21 (option, value-class) pairs: -e -d -v -V -h -n, -i {existing, missing, 130-character path}, -o {ok, unopenable}, -k {valid, 3 malformed}, --cmode {2, 7, -3}, --hmode {1, 9}, unknown option']
-    r.outside = ['glibc getopt_long tokenisation of argv, iostream/filesystem internals, the interactive prompt mode (excluded by C17), the restore claim "key printed by -e lets -d restore F" = C16 (printed key accepted and decodes to the same key) + C01']
-    r.assumptions = ['getopt_long/fopen/sprintf/strtol/std::filesystem::file_size modelled in harness/h_c17.c', 'strlog (formatting) replaced by a diagnostic counter', 'runcrypt replaced by a stub that checks the kernel preconditions and returns a symbolic result']
-    r.run_all(jobs=4)
+    lens = [0, 1, 5, 23, 24, 25, 60, 122, 123, 124, 130, 200] if tier == 'quick' else list(range(0, 40)) + [60, 100, 118, 119, 120, 121, 122, 123, 124, 125, 126, 127, 128, 129, 130, 140, 200, 250]
+    def step(name, optc, n):
+        r.add(Ob('step-%s%s' % (name, '-arglen%d' % n if n is not None else ''), 'h_c17.c', [u], defines=['H_STEP', 'ARGLEN=%d' % (n or 0), 'ENV_NO_EXIT'] + (['OPTC=%d' % optc] if optc is not None else []),
+                 unwind=max(64, (n or 0) + 16), timeout=T, mem_gb=16, envs=CLI_ENVS, cbmc_extra=FS + ['--slice-formula'], replay_units=[ureal], replay_envs=NATIVE,
+                 note='option %s, any argument text of that many printable characters, any state satisfying Inv, any fopen outcome / file size / number' % name))
+    for ch in 'edvVhn':
+        step('opt-' + ch, ord(ch), None)
+    step('cmode', 1, None); step('hmode', 2, None); step('unknown-option', None, 5)
+    for ch in 'iok':
+        for n in lens:
+            step('opt-' + ch, ord(ch), n)
+    # ---- what get_v_opt does around the loop
+    ut = U_cli_tail()
+    for n in ((0, 1, 2) if tier == 'quick' else (0, 1, 2, 3)):
+        r.add(Ob('tail-%d-options' % n, 'h_c17.c', [ut], defines=['H_TAIL', 'NOPT=%d' % n, 'ENV_NO_EXIT'], unwind=270, timeout=T, mem_gb=16, envs=CLI_ENVS, cbmc_extra=FS,
+                 replay_units=[ureal], replay_envs=NATIVE, note='parseOpts replaced by "any Inv state, any verdict"; default output opens or not'))
+    # ---- main
+    um = U_cli_main()
+    r.add(Ob('main-dispatch', 'h_c17.c', [um], defines=['H_MAIN', 'ENV_NO_EXIT'], unwind=64, timeout=T, mem_gb=16, envs=CLI_ENVS, cbmc_extra=FS,
+             replay_units=[ureal], replay_envs=NATIVE, note='get_v_opt replaced by "NULL, or any state satisfying Q"; kernel operations replaced by recorders with a symbolic result'))
+    # ---- integration: the undivided main() on concrete option sequences
+    seqs = SEQS_QUICK if tier == 'quick' else SEQS_QUICK + [[a, b] for a in range(24) for b in range(24)]
+    seen = set()
+    for sq in seqs:
+        nm = 'whole-' + '-'.join(str(k) for k in sq)
+        if nm in seen:
+            continue
+        seen.add(nm)
+        plens = (1, 6, 130) if 21 in sq else (6,)
+        for pl in plens:
+            r.add(Ob(nm + ('-path%d' % pl if 21 in sq else ''), 'h_c17.c', [u], defines=['H_WHOLE', 'SEQ=%s' % ','.join(str(k) for k in sq), 'WPATHLEN=%d' % pl, 'ENV_NO_EXIT'], unwind=270, timeout=T, mem_gb=16,
+                     envs=CLI_ENVS, cbmc_extra=FS + (['--slice-formula'] if 21 in sq else []), replay_units=[ureal], replay_envs=NATIVE, note='real main/get_v_opt/parseOpts together; operation result, file size and the symbolic path symbolic'))
+    r.bounds = ['option vectors of ANY length: induction over the option loop (Inv holds initially: tail obligations; preserved by every accepted option: step obligations; a rejected option ends the run with a diagnostic)',
+                'per step (one query per option code class; the class unknown-option covers the other 245 char values): every argument text of the listed lengths %s over printable characters, every Inv state' % lens,
+                'integration: %d concrete option sequences through the undivided main()' % len(seen)]
+    r.outside = ['glibc getopt_long tokenisation of argv (the model delivers any sequence of option codes with arguments; abbreviations, "--", permutation are glibc\'s)', 'iostream / std::filesystem internals; file_size throwing (modelled as returning any value)',
+                 'the interactive prompt mode (excluded by C17)', 'argument texts longer than 250 characters and non-printable characters', 'non-numeric mode numbers (atoi semantics: taken as 0)',
+                 'the restore claim "the key printed by -e lets -d restore F" = C16 (printed key accepted and decodes to the same key) + C01', 'what the kernel prints when an operation fails (C11/C12 give the result code)']
+    r.assumptions = ['getopt_long / fopen / atoi / std::filesystem::file_size / exit modelled in harness/h_c17.c (each returns an arbitrary value of its contract)', 'strlog (formatting) replaced by a diagnostic counter',
+                     'runcrypt constructor and operations replaced by recorders that check the kernel preconditions and return a symbolic result', 'operator new does not fail']
+    r.run_all(jobs=14)
+    # ---- concordance: the same harnesses natively on the REAL build (real getopt_long / fopen / kernel) for concrete inputs
+    cases = []
+    def cc(name, defines, asg):
+        cases.append((Ob('real-build-' + name, 'h_c17.c', [ureal], defines=defines, replay_units=[ureal], replay_envs=NATIVE), asg))
+    U = ['IN.mode=117', 'IN.ctype=255', 'IN.htype=255']                      # mode 'u', numbers unset
+    def txt(field, t): return ['IN.%s[%d]=%d' % (field, i, ord(ch)) for i, ch in enumerate(t)]
+    cc('step-i-130-opens', ['H_STEP', 'ARGLEN=130', 'OPTC=%d' % ord('i')], U + ['IN.c=%d' % ord('i'), 'IN.fopen_ok=1'] + txt('arg', 'q' * 130))
+    cc('step-i-missing', ['H_STEP', 'ARGLEN=7', 'OPTC=%d' % ord('i')], U + ['IN.c=%d' % ord('i'), 'IN.fopen_ok=0'] + txt('arg', 'missing'))
+    cc('step-o-dir', ['H_STEP', 'ARGLEN=3', 'OPTC=%d' % ord('o')], U + ['IN.c=%d' % ord('o'), 'IN.fopen_ok=0'] + txt('arg', 'dir'))
+    cc('step-k-valid', ['H_STEP', 'ARGLEN=24', 'OPTC=%d' % ord('k')], U + ['IN.c=%d' % ord('k')] + txt('arg', 'QUJDREVGR0hJSktMTU5PUA=='))
+    cc('step-k-one-pad', ['H_STEP', 'ARGLEN=24', 'OPTC=%d' % ord('k')], U + ['IN.c=%d' % ord('k')] + txt('arg', 'QUJDREVGR0hJSktMTU5PUFE='))
+    for v in (0, 4, 5, 255, 256, -1):
+        cc('step-cmode-%d' % v, ['H_STEP', 'ARGLEN=0', 'OPTC=1'], U + ['IN.c=1', 'IN.num=%d' % v])
+    cc('step-hmode-twice', ['H_STEP', 'ARGLEN=0', 'OPTC=2'], ['IN.mode=101', 'IN.ctype=255', 'IN.htype=1', 'IN.c=2', 'IN.num=2'])
+    cc('step-second-mode', ['H_STEP', 'ARGLEN=0', 'OPTC=%d' % ord('d')], ['IN.mode=101', 'IN.ctype=255', 'IN.htype=255', 'IN.c=%d' % ord('d')])
+    cc('step-unknown', ['H_STEP', 'ARGLEN=0'], U + ['IN.c=%d' % ord('x')])
+    H = lambda k, mode, fp, out, key, ok=1, ct=255, ht=255: ['IN.h[%d].ok=%d' % (k, ok), 'IN.h[%d].mode=%d' % (k, ord(mode)), 'IN.h[%d].ctype=%d' % (k, ct), 'IN.h[%d].htype=%d' % (k, ht),
+                                                             'IN.h[%d].has_fp=%d' % (k, fp), 'IN.h[%d].has_out=%d' % (k, out), 'IN.h[%d].has_key=%d' % (k, key)]
+    T1 = ['H_TAIL', 'NOPT=1']
+    for nm, a in (('e-default-out', H(0, 'e', 1, 0, 0) + ['IN.fopen_ok=1']), ('e-default-out-unopenable', H(0, 'e', 1, 0, 0) + ['IN.fopen_ok=0']), ('e-no-input', H(0, 'e', 0, 1, 1)),
+                  ('d-complete', H(0, 'd', 1, 1, 1, ct=2, ht=1)), ('d-no-key', H(0, 'd', 1, 1, 0)), ('d-no-out', H(0, 'd', 1, 0, 1)), ('d-no-input', H(0, 'd', 0, 1, 1)),
+                  ('v-complete', H(0, 'v', 1, 0, 1)), ('v-no-key', H(0, 'v', 1, 0, 0)), ('no-mode', H(0, 'u', 1, 1, 1)), ('version', H(0, 'V', 0, 0, 0)), ('rejected-option', H(0, 'e', 1, 1, 1, ok=0))):
+        cc('tail-' + nm, T1, ['IN.nopts=1', 'IN.c[0]=1'] + a)
+    cc('tail-no-option', ['H_TAIL', 'NOPT=0'], ['IN.nopts=0'])
+    for mode in 'edv':
+        for res in (1, 0):
+            if mode == 'e' and not res:
+                continue
+            cc('main-%s-result%d' % (mode, res), ['H_MAIN'], ['IN.mode=%d' % ord(mode), 'IN.ctype=%d' % (1 if mode == 'e' else 255), 'IN.htype=%d' % (2 if mode == 'e' else 255), 'IN.has_out=1', 'IN.has_key=1', 'IN.opres=%d' % res])
+    cc('main-help', ['H_MAIN'], ['IN.mode=%d' % ord('h'), 'IN.ctype=255', 'IN.htype=255'])
+    cc('main-rejected', ['H_MAIN'], ['IN.null=1', 'IN.mode=%d' % ord('d'), 'IN.ctype=255', 'IN.htype=255', 'IN.has_out=1', 'IN.has_key=1'])
+    for sq in ([0, 3], [0, 5], [0, 21], [0, 3, 6, 8], [0, 3, 12, 14, 16], [0, 3, 13], [0, 3, 22], [0, 4], [0, 3, 9], [1, 3], [1, 3, 8], [1, 3, 8, 6], [1, 3, 8, 6, 12], [2, 3], [2, 3, 8], [0, 1], [17], [18], [19], [3, 6, 8], [8, 6, 3, 1]):
+        for res in (1, 0):
+            if 0 in sq and not res:
+                continue
+            cc('whole-%s-result%d' % ('-'.join(str(k) for k in sq), res), ['H_WHOLE', 'SEQ=%s' % ','.join(str(k) for k in sq), 'WPATHLEN=6'], ['IN.opres=%d' % res] + txt('path', 'sympth'))
+    r.concord(cases, jobs=14)
     return r.finish()
 
 def replay(rp):
-    return 0
+    return generic_replay(rp, {'cli': U_cli_real, 'cli_tail': U_cli_real, 'cli_main': U_cli_real, 'cli_real': U_cli_real})
